@@ -98,7 +98,7 @@ let rec show_out (o : out) : string =
         (int_of_n kf.kf_delim) (int_of_n kf.kf_comment) (enc_opt kf.kf_path)
         (String.concat "|" (List.map show_entry kf.kf_entries))
   | OTags (d, c) -> Printf.sprintf "tags d=%d c=%d" (int_of_n d) (int_of_n c)
-  | OParse (e, l) -> if int_of_n (err_code e) = 0 then rc e else Printf.sprintf "%s line=%d" (rc e) (int_of_n l)
+  | OParse (e, l, f) -> if int_of_n (err_code e) = 0 then rc e else Printf.sprintf "%s line=%d file=%s" (rc e) (int_of_n l) (enc f)
   | ONoObj -> "noobj"
 
 let parse_cmd (toks : string list) : cmd =
@@ -125,6 +125,7 @@ let parse_cmd (toks : string list) : cmd =
   | ["tags"; a] -> CTags (o a)
   | ["settags"; a; d; c] -> CSetTags (o a, n_of_int (i d), n_of_int (i c))
   | ["free"; a] -> CFree (o a)
+  | ["errstring"; n] -> CErrString (n_of_int (i n))
   | _ -> failwith ("bad command: " ^ String.concat " " toks)
 
 (* ---------- grammar ASTs (C02 and friends) ----------
